@@ -13,6 +13,7 @@ struct Run {
     int grouping[3];   // bitmask: bit i set = packet boundary after frame i (i < n-1)
     int uri[3];        // 0 absolute plain, 1 file:// + absolute, 2 short relative name (< 7 chars), 3 (cycles > 0) no set: restart with the previous settings
     std::vector<int> plan;
+    int intruder = -1; // >= 0: after this many packets of cycle 0 a SECOND raw device is pointed at the same file (set; start; stop; close)
 };
 static std::string run_str(const Run& r)
 {
@@ -21,6 +22,7 @@ static std::string run_str(const Run& r)
     s += "|group:"; for (int c = 0; c < r.cycles; ++c) { snprintf(b, sizeof b, "%s%d", c ? "," : "", r.grouping[c]); s += b; }
     s += "|uri:"; for (int c = 0; c < r.cycles; ++c) { snprintf(b, sizeof b, "%s%d", c ? "," : "", r.uri[c]); s += b; }
     s += "|plan:"; for (size_t i = 0; i < r.plan.size(); ++i) { snprintf(b, sizeof b, "%s%d", i ? "," : "", r.plan[i]); s += b; }
+    if (r.intruder >= 0) s += "|intruder:" + std::to_string(r.intruder);
     return s;
 }
 static bool parse_run(const std::string& s, Run& r)
@@ -33,9 +35,11 @@ static bool parse_run(const std::string& s, Run& r)
     auto f = ints(field("frames")), g = ints(field("group")), u = ints(field("uri"));
     for (int c = 0; c < r.cycles; ++c) { r.nframes[c] = c < (int)f.size() ? f[c] : 1; r.grouping[c] = c < (int)g.size() ? g[c] : 0; r.uri[c] = c < (int)u.size() ? u[c] : 0; }
     r.plan = ints(field("plan"));
+    r.intruder = field("intruder").empty() ? -1 : atoi(field("intruder").c_str());
     return true;
 }
 
+static unsigned long long g_intrusions;
 struct Result { bool ok = true; std::string clause, detail; int writes = 0; bool write_failed = false; };
 
 static const uint32_t WIDTHS[3] = { 1, 9, 17 }; // frames of 104, 112 and 120 bytes
@@ -73,6 +77,24 @@ static Result execute(const Run& r, bool verbose)
         foreign_shuffle();
         std::vector<uint8_t> expect, packet;
         bool failed = false;
+        int npackets = 0;
+        auto intrude = [&]() {
+            // another raw device of the same driver is configured with the file this one is recording to and started: whatever
+            // becomes of that start, this device's file still consists of this device's frames
+            struct Storage* other = dev_open(BasicDevice_Storage_Raw);
+            if (!other) return;
+            std::string uri2 = "file://" + path;
+            struct StorageProperties p2; memset(&p2, 0, sizeof p2);
+            struct PixelScale ps2 = { 1, 1 };
+            storage_properties_init(&p2, 0, uri2.c_str(), uri2.size() + 1, nullptr, 0, ps2, 0);
+            DEV(storage_set(other, &p2));
+            storage_properties_destroy(&p2);
+            DEV(storage_start(other));
+            DEV(storage_stop(other));
+            DEV(storage_close(other));
+            ++g_intrusions;
+        };
+        if (c == 0 && r.intruder == 0) intrude();
         for (int i = 0; i < r.nframes[c]; ++i) {
             FrameSpec fs = { WIDTHS[(i + c) % 3], 1, SampleType_u8, (uint64_t)i };
             std::vector<uint8_t> f = make_frame(fs, c);
@@ -89,6 +111,7 @@ static Result execute(const Run& r, bool verbose)
                 expect.insert(expect.end(), packet.begin(), packet.end());
                 packet.clear();
                 foreign_shuffle();
+                if (c == 0 && r.intruder == ++npackets) intrude();
             }
         }
         DEV(storage_stop(dev));
@@ -173,6 +196,8 @@ int main(int argc, char** argv)
             note(b, r0);
             if (samples.size() < 8 && histories % 97 == 3) samples.push_back(run_str(b));
             if (!r0.ok) continue; // deviations on a broken base add nothing
+            if (cycles == 1 && b.uri[0] < 2)
+                for (int k = 0; k <= b.nframes[0]; ++k) { Run ri = b; ri.intruder = k; Result res = execute(ri, false); ++runs; ++judged; note(ri, res); }
             int W = r0.writes + 2 * dev; // short writes add calls
             if (cycles == 2 && (b.uri[0] != 0 || b.uri[1] != 0) && dev > 1) W = r0.writes; // keep the product in check: full depth only for plain URIs
             // all placements of <= dev deviations over the first W pwrite calls, kinds {short by 1, one byte, zero}
@@ -204,8 +229,8 @@ int main(int argc, char** argv)
     h_rmtree(g_scratch);
     double wall = std::chrono::duration<double>(std::chrono::steady_clock::now() - t0).count();
     FILE* f = out.empty() ? stdout : fopen(out.c_str(), "w");
-    fprintf(f, "{\"max_cycles\":%d,\"max_short_write_deviations\":%d,\"histories\":%llu,\"runs\":%llu,\"runs_with_short_or_zero_writes\":%llu,\"runs_judged\":%llu,\"multi_cycle_histories\":%llu,\"exhaustive\":true,\"wall_s\":%.3f,\"samples\":[",
-            max_cycles, dev, histories, runs, short_runs, judged, multi_cycle, wall);
+    fprintf(f, "{\"runs_with_a_second_device_on_the_same_file\":%llu,\"max_cycles\":%d,\"max_short_write_deviations\":%d,\"histories\":%llu,\"runs\":%llu,\"runs_with_short_or_zero_writes\":%llu,\"runs_judged\":%llu,\"multi_cycle_histories\":%llu,\"exhaustive\":true,\"wall_s\":%.3f,\"samples\":[",
+            g_intrusions, max_cycles, dev, histories, runs, short_runs, judged, multi_cycle, wall);
     for (size_t i = 0; i < samples.size(); ++i) fprintf(f, "%s\"%s\"", i ? "," : "", json_esc(samples[i]).c_str());
     fprintf(f, "],\"violations\":[");
     bool first = true;
